@@ -72,15 +72,6 @@ func (s *scaler) v3s(vs []vector3.Float64) [][]int {
 	return out
 }
 
-func (s *scaler) m4(m mat.Matrix4x4) []int {
-	a := matArr(m)
-	out := make([]int, 16)
-	for i, x := range a {
-		out[i] = s.f(x)
-	}
-	return out
-}
-
 func matArr(m mat.Matrix4x4) [16]float64 {
 	return [16]float64{
 		m.X00, m.X01, m.X02, m.X03,
@@ -99,15 +90,36 @@ func matOf(a []float64) mat.Matrix4x4 {
 	}
 }
 
-func matOfInts(a []int, den int) mat.Matrix4x4 {
-	f := make([]float64, 16)
-	for i := range f {
-		f[i] = float64(a[i]) / float64(den)
-	}
-	return matOf(f)
+func vi(v []int) vector3.Float64 { return vector3.New(float64(v[0]), float64(v[1]), float64(v[2])) }
+
+// Binary magnitude (round 2): a case may declare exponents; an input is then
+// mantissa * 2^exponent and an output is logged in the unit 2^exponent the
+// case declares for it (multiplication by a power of two is exact, so this is
+// a change of unit, not a computation).  Which unit belongs to which output
+// is stated by Algebra.tla (ScaleMat1 / ScaleMat2 / ScaleRot / ScaleTRS /
+// RealDeg); the generator writes the units into the case, the judge checks
+// them again.  Missing exponent fields are zero: the unscaled case.
+func p2(e int) float64 { return math.Ldexp(1, e) }
+
+func sc3(v vector3.Float64, e int) vector3.Float64 {
+	f := p2(e)
+	return vector3.New(v.X()*f, v.Y()*f, v.Z()*f)
 }
 
-func vi(v []int) vector3.Float64 { return vector3.New(float64(v[0]), float64(v[1]), float64(v[2])) }
+func sc3s(vs []vector3.Float64, e int) []vector3.Float64 {
+	out := make([]vector3.Float64, len(vs))
+	for i, v := range vs {
+		out[i] = sc3(v, e)
+	}
+	return out
+}
+
+func intsN(v []int, n int) []int {
+	if len(v) == n {
+		return v
+	}
+	return make([]int, n)
+}
 
 func vid(v []int, den int) vector3.Float64 {
 	d := float64(den)
@@ -180,6 +192,10 @@ type rotCase struct {
 	Sn   int `json:"sn"`
 	Hy   int `json:"hy"`
 	Am   int `json:"am"`
+	// binary magnitude: vectors * 2^ve, axis * 2^ae, results in units of 2^ru / q
+	Ve int `json:"ve"`
+	Ae int `json:"ae"`
+	Ru int `json:"ru"`
 }
 
 type rotLine struct {
@@ -193,17 +209,21 @@ type rotLine struct {
 	Sn   int      `json:"sn"`
 	Hy   int      `json:"hy"`
 	Am   int      `json:"am"`
+	Ve   int      `json:"ve"`
+	Ae   int      `json:"ae"`
+	Ru   int      `json:"ru"`
 	Vs   [][]int  `json:"vs"`
 	Q    int      `json:"q"`
 	Res  [][]int  `json:"res"`
 	Seq  [][]int  `json:"seq"`
+	Arr  [][]int  `json:"arr"` // the same vectors through Quaternion.RotateArray
 	Ex   bool     `json:"ex"`
 	Id   int      `json:"id"`
 }
 
 func execRot(c rotCase, id int) rotLine {
 	ln := rotLine{K: c.K, Word: c.Word, Ax: c.Ax, C2: c.C2, Sg: c.Sg, Axis: c.Axis, Cn: c.Cn, Sn: c.Sn, Hy: c.Hy, Am: c.Am,
-		Vs: c.Vs, Q: QA, Res: [][]int{}, Seq: [][]int{}, Id: id}
+		Ve: c.Ve, Ae: c.Ae, Ru: c.Ru, Vs: c.Vs, Q: QA, Res: [][]int{}, Seq: [][]int{}, Arr: [][]int{}, Id: id}
 	if ln.Word == nil {
 		ln.Word = []Letter{}
 	}
@@ -219,13 +239,23 @@ func execRot(c rotCase, id int) rotLine {
 		ln.Q /= 2
 	}
 	s := newScaler(ln.Q)
-	vs := vis(c.Vs)
+	vs := sc3s(vis(c.Vs), c.Ve)
+	out := func(v vector3.Float64) []int { return s.v3(sc3(v, -c.Ru)) }
 	failed := guard(func() {
+		var used quaternion.Quaternion
+		defer func() {
+			in := make([]vector3.Float64, len(vs))
+			copy(in, vs)
+			for _, v := range used.RotateArray(in) {
+				ln.Arr = append(ln.Arr, out(v))
+			}
+		}()
 		switch c.K {
 		case "rot":
 			q, prev := wordQuat(c.Word)
+			used = q
 			for _, v := range vs {
-				ln.Res = append(ln.Res, s.v3(q.Rotate(v)))
+				ln.Res = append(ln.Res, out(q.Rotate(v)))
 			}
 			if len(c.Word) == 0 {
 				ln.Seq = ln.Res
@@ -235,23 +265,25 @@ func execRot(c rotCase, id int) rotLine {
 			g := letterQuat(last)
 			for _, v := range vs {
 				if last.Side == "L" { // q = g*prev rotates like prev followed by g
-					ln.Seq = append(ln.Seq, s.v3(g.Rotate(prev.Rotate(v))))
+					ln.Seq = append(ln.Seq, out(g.Rotate(prev.Rotate(v))))
 				} else { // q = prev*g rotates like g followed by prev
-					ln.Seq = append(ln.Seq, s.v3(prev.Rotate(g.Rotate(v))))
+					ln.Seq = append(ln.Seq, out(prev.Rotate(g.Rotate(v))))
 				}
 			}
 		case "rotax":
 			theta := float64(c.Sg) * math.Acos(float64(c.C2)/2)
-			q := quaternion.FromTheta(theta, vi(c.Ax))
+			q := quaternion.FromTheta(theta, sc3(vi(c.Ax), c.Ae))
+			used = q
 			for _, v := range vs {
-				ln.Res = append(ln.Res, s.v3(q.Rotate(v)))
+				ln.Res = append(ln.Res, out(q.Rotate(v)))
 			}
 			ln.Seq = ln.Res
 		case "rotq":
 			theta := math.Atan2(float64(c.Sn), float64(c.Cn))
-			q := quaternion.FromTheta(theta, axisVec(c.Axis).Scale(float64(c.Am)))
+			q := quaternion.FromTheta(theta, sc3(axisVec(c.Axis).Scale(float64(c.Am)), c.Ae))
+			used = q
 			for _, v := range vs {
-				ln.Res = append(ln.Res, s.v3(q.Rotate(v)))
+				ln.Res = append(ln.Res, out(q.Rotate(v)))
 			}
 			ln.Seq = ln.Res
 		}
@@ -328,6 +360,22 @@ type matCase struct {
 	B  []int   `json:"b"`
 	Bd int     `json:"bd"`
 	Vs [][]int `json:"vs"`
+	// binary magnitude, mat1: entry k of the matrix is a[k] * 2^ae[k] (ae[4(i-1)+j] = re[i] + ce[j], row and
+	// column exponents); the determinant is logged in units of 2^du, entry k of the inverse in units of
+	// 2^iu[k] / QA, probe component j is vs[.][j] * 2^ve[j], MulPosition component i in units of 2^mu[i] / QA
+	Re []int `json:"re"`
+	Ce []int `json:"ce"`
+	Ae []int `json:"ae"`
+	Du int   `json:"du"`
+	Iu []int `json:"iu"`
+	Ve []int `json:"ve"`
+	Mu []int `json:"mu"`
+	// mat2: a * 2^ea; Add with b * 2^eba, logged in units of 2^au / QA; Multiply with b * 2^ebm, in 2^pu / QA
+	Ea  int `json:"ea"`
+	Eba int `json:"eba"`
+	Ebm int `json:"ebm"`
+	Au  int `json:"au"`
+	Pu  int `json:"pu"`
 }
 
 type mat2Line struct {
@@ -339,19 +387,42 @@ type mat2Line struct {
 	Add []int  `json:"add"`
 	Mul []int  `json:"mul"`
 	Ex  bool   `json:"ex"`
+	Ea  int    `json:"ea"`
+	Eba int    `json:"eba"`
+	Ebm int    `json:"ebm"`
+	Au  int    `json:"au"`
+	Pu  int    `json:"pu"`
 	Id  int    `json:"id"`
+}
+
+// scaled entries: every entry times 2^e, logged as entry * 2^-u
+func (s *scaler) m4u(m mat.Matrix4x4, u int) []int {
+	a := matArr(m)
+	out := make([]int, 16)
+	for i, x := range a {
+		out[i] = s.f(x * p2(-u))
+	}
+	return out
+}
+
+func matScaled(a []int, den int, e int) mat.Matrix4x4 {
+	f := make([]float64, 16)
+	for i := range f {
+		f[i] = float64(a[i]) / float64(den) * p2(e)
+	}
+	return matOf(f)
 }
 
 func zeros(n int) []int { return make([]int, n) }
 
 func execMat2(c matCase, id int) mat2Line {
-	ln := mat2Line{K: "mat2", A: c.A, Ad: c.Ad, B: c.B, Bd: c.Bd, Add: zeros(16), Mul: zeros(16), Id: id}
+	ln := mat2Line{K: "mat2", A: c.A, Ad: c.Ad, B: c.B, Bd: c.Bd, Add: zeros(16), Mul: zeros(16),
+		Ea: c.Ea, Eba: c.Eba, Ebm: c.Ebm, Au: c.Au, Pu: c.Pu, Id: id}
 	s := newScaler(QA)
 	failed := guard(func() {
-		a := matOfInts(c.A, c.Ad)
-		b := matOfInts(c.B, c.Bd)
-		ln.Add = s.m4(a.Add(b))
-		ln.Mul = s.m4(a.Multiply(b))
+		a := matScaled(c.A, c.Ad, c.Ea)
+		ln.Add = s.m4u(a.Add(matScaled(c.B, c.Bd, c.Eba)), c.Au)
+		ln.Mul = s.m4u(a.Multiply(matScaled(c.B, c.Bd, c.Ebm)), c.Pu)
 	})
 	ln.Ex = s.ok && !failed
 	return ln
@@ -367,22 +438,40 @@ type mat1Line struct {
 	Vs    [][]int `json:"vs"`
 	Mp    [][]int `json:"mp"`
 	MpEx  bool    `json:"mpex"`
+	Re    []int   `json:"re"`
+	Ce    []int   `json:"ce"`
+	Ae    []int   `json:"ae"`
+	Du    int     `json:"du"`
+	Iu    []int   `json:"iu"`
+	Ve    []int   `json:"ve"`
+	Mu    []int   `json:"mu"`
 	Id    int     `json:"id"`
 }
 
 func execMat1(c matCase, id int) mat1Line {
-	ln := mat1Line{K: "mat1", A: c.A, Inv: zeros(16), Vs: c.Vs, Mp: [][]int{}, Id: id}
-	a := matOfInts(c.A, 1)
+	ln := mat1Line{K: "mat1", A: c.A, Inv: zeros(16), Vs: c.Vs, Mp: [][]int{},
+		Re: intsN(c.Re, 4), Ce: intsN(c.Ce, 4), Ae: intsN(c.Ae, 16), Du: c.Du, Iu: intsN(c.Iu, 16), Ve: intsN(c.Ve, 3), Mu: intsN(c.Mu, 3), Id: id}
+	f := make([]float64, 16)
+	for k := range f {
+		f[k] = float64(c.A[k]) * p2(ln.Ae[k])
+	}
+	a := matOf(f)
 	sd := newScaler(1)
-	f1 := guard(func() { ln.Det = sd.f(a.Determinant()) })
+	f1 := guard(func() { ln.Det = sd.f(a.Determinant() * p2(-ln.Du)) })
 	ln.DetEx = sd.ok && !f1
 	si := newScaler(QA)
-	f2 := guard(func() { ln.Inv = si.m4(a.Inverse()) })
+	f2 := guard(func() {
+		for k, x := range matArr(a.Inverse()) {
+			ln.Inv[k] = si.f(x * p2(-ln.Iu[k]))
+		}
+	})
 	ln.InvEx = si.ok && !f2
 	sm := newScaler(QA)
 	f3 := guard(func() {
 		for _, v := range c.Vs {
-			ln.Mp = append(ln.Mp, sm.v3(a.MulPosition(vi(v))))
+			p := vector3.New(float64(v[0])*p2(ln.Ve[0]), float64(v[1])*p2(ln.Ve[1]), float64(v[2])*p2(ln.Ve[2]))
+			r := a.MulPosition(p)
+			ln.Mp = append(ln.Mp, []int{sm.f(r.X() * p2(-ln.Mu[0])), sm.f(r.Y() * p2(-ln.Mu[1])), sm.f(r.Z() * p2(-ln.Mu[2]))})
 		}
 	})
 	ln.MpEx = sm.ok && !f3
@@ -401,6 +490,11 @@ type trsCase struct {
 	Tr   []int    `json:"tr"`
 	Vs   [][]int  `json:"vs"`
 	Pos  [][]int  `json:"pos"`
+	// binary magnitude: translations * 2^te, scale factors * 2^se, points * 2^ve, results in units of 2^ru / QA
+	Te int `json:"te"`
+	Se int `json:"se"`
+	Ve int `json:"ve"`
+	Ru int `json:"ru"`
 }
 
 type trsLine struct {
@@ -415,40 +509,44 @@ type trsLine struct {
 	Arr  [][]int  `json:"arr"`
 	Inp  [][]int  `json:"inp"`
 	Ex   bool     `json:"ex"`
+	Te   int      `json:"te"`
+	Se   int      `json:"se"`
+	Ve   int      `json:"ve"`
+	Ru   int      `json:"ru"`
 	Id   int      `json:"id"`
 }
 
-func buildTRS(ctor string, t []int, w []Letter, s []int) trs.TRS {
+func buildTRS(ctor string, t vector3.Float64, w []Letter, s vector3.Float64) trs.TRS {
 	q, _ := wordQuat(w)
 	switch ctor {
 	case "Position":
-		return trs.Position(vi(t))
+		return trs.Position(t)
 	case "Scale":
-		return trs.Scale(vi(s))
+		return trs.Scale(s)
 	case "Rotation":
 		return trs.Rotation(q)
 	}
-	return trs.New(vi(t), q, vi(s))
+	return trs.New(t, q, s)
 }
 
 func execTRS(c trsCase, id int) trsLine {
 	ln := trsLine{K: "trs", Ctor: c.Ctor, T: c.T, Word: c.Word, S: c.S, Tr: c.Tr, Vs: c.Vs,
-		Res: [][]int{}, Arr: [][]int{}, Inp: [][]int{}, Id: id}
+		Res: [][]int{}, Arr: [][]int{}, Inp: [][]int{}, Te: c.Te, Se: c.Se, Ve: c.Ve, Ru: c.Ru, Id: id}
 	if ln.Word == nil {
 		ln.Word = []Letter{}
 	}
 	s := newScaler(QA)
 	failed := guard(func() {
-		x := buildTRS(c.Ctor, c.T, c.Word, c.S).Translate(vi(c.Tr))
-		vs := vis(c.Vs)
+		x := buildTRS(c.Ctor, sc3(vi(c.T), c.Te), c.Word, sc3(vi(c.S), c.Se)).Translate(sc3(vi(c.Tr), c.Te))
+		vs := sc3s(vis(c.Vs), c.Ve)
 		for _, v := range vs {
-			ln.Res = append(ln.Res, s.v3(x.Transform(v)))
+			ln.Res = append(ln.Res, s.v3(sc3(x.Transform(v), -c.Ru)))
 		}
-		ln.Arr = s.v3s(x.TransformArray(vs))
+		ln.Arr = s.v3s(sc3s(x.TransformArray(vs), -c.Ru))
 		cp := make([]vector3.Float64, len(vs))
 		copy(cp, vs)
 		x.TransformInPlace(cp)
-		ln.Inp = s.v3s(cp)
+		ln.Inp = s.v3s(sc3s(cp, -c.Ru))
 	})
 	ln.Ex = s.ok && !failed
 	return ln
@@ -463,6 +561,10 @@ type meshLine struct {
 	Pos  [][]int  `json:"pos"`
 	Res  [][]int  `json:"res"`
 	Ex   bool     `json:"ex"`
+	Te   int      `json:"te"`
+	Se   int      `json:"se"`
+	Ve   int      `json:"ve"`
+	Ru   int      `json:"ru"`
 	Id   int      `json:"id"`
 }
 
@@ -488,26 +590,27 @@ func meshPositions(m modeling.Mesh) []vector3.Float64 {
 }
 
 func execMesh(c trsCase, id int) meshLine {
-	ln := meshLine{K: "mesh", Op: c.Op, T: c.T, Word: c.Word, S: c.S, Pos: c.Pos, Res: [][]int{}, Id: id}
+	ln := meshLine{K: "mesh", Op: c.Op, T: c.T, Word: c.Word, S: c.S, Pos: c.Pos, Res: [][]int{},
+		Te: c.Te, Se: c.Se, Ve: c.Ve, Ru: c.Ru, Id: id}
 	if ln.Word == nil {
 		ln.Word = []Letter{}
 	}
 	s := newScaler(QA)
 	failed := guard(func() {
-		m := latticeMesh(vis(c.Pos))
+		m := latticeMesh(sc3s(vis(c.Pos), c.Ve))
 		q, _ := wordQuat(c.Word)
 		var r modeling.Mesh
 		switch c.Op {
 		case "Rotate":
 			r = m.Rotate(q)
 		case "Translate":
-			r = m.Translate(vi(c.T))
+			r = m.Translate(sc3(vi(c.T), c.Te))
 		case "Scale":
-			r = m.Scale(vi(c.S))
+			r = m.Scale(sc3(vi(c.S), c.Se))
 		default:
-			r = m.ApplyTRS(trs.New(vi(c.T), q, vi(c.S)))
+			r = m.ApplyTRS(trs.New(sc3(vi(c.T), c.Te), q, sc3(vi(c.S), c.Se)))
 		}
-		ln.Res = s.v3s(meshPositions(r))
+		ln.Res = s.v3s(sc3s(meshPositions(r), -c.Ru))
 	})
 	ln.Ex = s.ok && !failed
 	return ln
@@ -528,6 +631,7 @@ type boxHist struct {
 	Den    int       `json:"den"`
 	Steps  []boxStep `json:"steps"`
 	Probes [][]int   `json:"probes"`
+	Be     int       `json:"be"` // binary magnitude: every coordinate is integer / den * 2^be, logged in units of 2^be / QA
 }
 
 type boxLine struct {
@@ -546,6 +650,7 @@ type boxLine struct {
 	Cont   []bool  `json:"cont"`
 	Cp     [][]int `json:"cp"`
 	CpEx   bool    `json:"cpex"`
+	Be     int     `json:"be"`
 	Id     int     `json:"id"`
 	I      int     `json:"i"`
 }
@@ -558,9 +663,10 @@ type resetLine struct {
 func execBox(h boxHist, id int, emit func(any)) {
 	emit(resetLine{K: "reset", Id: id})
 	var box geometry.AABB
+	vid := func(v []int, den int) vector3.Float64 { return sc3(vid(v, den), h.Be) }
 	for i, st := range h.Steps {
 		ln := boxLine{K: "boxenc", Ctor: st.Op, Op: st.Op, C: st.C, Size: st.Size, P: st.P, Pts: st.Pts, Den: h.Den,
-			Lo: []int{0, 0, 0}, Hi: []int{0, 0, 0}, Probes: h.Probes, Cont: []bool{}, Cp: [][]int{}, Id: id, I: i}
+			Lo: []int{0, 0, 0}, Hi: []int{0, 0, 0}, Probes: h.Probes, Cont: []bool{}, Cp: [][]int{}, Be: h.Be, Id: id, I: i}
 		if ln.Pts == nil {
 			ln.Pts = [][]int{}
 		}
@@ -587,8 +693,8 @@ func execBox(h boxHist, id int, emit func(any)) {
 			default:
 				panic("unknown box op " + st.Op)
 			}
-			ln.Lo = s.v3(box.Min())
-			ln.Hi = s.v3(box.Max())
+			ln.Lo = s.v3(sc3(box.Min(), -h.Be))
+			ln.Hi = s.v3(sc3(box.Max(), -h.Be))
 		})
 		ln.Ex = s.ok && !failed
 		sc := newScaler(QA)
@@ -596,7 +702,7 @@ func execBox(h boxHist, id int, emit func(any)) {
 			for _, p := range h.Probes {
 				v := vid(p, h.Den)
 				ln.Cont = append(ln.Cont, box.Contains(v))
-				ln.Cp = append(ln.Cp, sc.v3(box.ClosestPoint(v)))
+				ln.Cp = append(ln.Cp, sc.v3(sc3(box.ClosestPoint(v), -h.Be)))
 			}
 		})
 		ln.CpEx = sc.ok && !f2
